@@ -134,7 +134,46 @@ func (c *controller) spawn(fn func()) *thread {
 	return t
 }
 
-var stepTimeout = 2 * time.Second
+// A released thread that neither parks nor ends is recognised by the wait states of the goroutines
+// (every one of them blocked: nothing can happen any more), not by the clock, so that a loaded
+// machine cannot produce a timeout; stepTimeout is only the last resort.
+var stepTimeout = 60 * time.Second
+
+// after a failure: how long an unfinished thread is given to run to its end
+var abandonTimeout = 2 * time.Second
+
+// stuck: nothing has happened for a while and every goroutine is blocked
+func stuck(since time.Time) bool {
+	return time.Since(since) > 20*time.Millisecond && quiescent()
+}
+
+// awaitPark waits until the thread parks (p) or ends (ended); err: it is blocked for good
+func awaitPark(park <-chan string, done <-chan struct{}) (p string, ended bool, err error) {
+	start := time.Now()
+	for {
+		select {
+		case p := <-park:
+			return p, false, nil
+		case <-done:
+			return "", true, nil
+		case <-time.After(5 * time.Millisecond):
+		}
+		if stuck(start) {
+			// the snapshot may show the thread blocked handing us its yield point
+			select {
+			case p := <-park:
+				return p, false, nil
+			case <-done:
+				return "", true, nil
+			default:
+			}
+			return "", false, fmt.Errorf("blocked (every goroutine is waiting)")
+		}
+		if time.Since(start) > stepTimeout {
+			return "", false, fmt.Errorf("no progress within %v", stepTimeout)
+		}
+	}
+}
 
 // step releases t and waits until it parks again or ends.  A released thread that does neither
 // within the timeout is a correspondence failure (the model says enabled, the code is blocked).
@@ -147,13 +186,12 @@ func (c *controller) step(t *thread) error {
 		a := t.adoptee
 		a.extra.Store("pull.opened")
 		a.resume <- struct{}{}
-		select {
-		case p := <-a.park:
-			if p != "pull.opened" {
-				return fmt.Errorf("PullID goroutine parked at %q", p)
-			}
-		case <-time.After(stepTimeout):
-			return fmt.Errorf("PullID goroutine did not open its Pull within %v", stepTimeout)
+		p, _, err := awaitPark(a.park, nil)
+		if err != nil {
+			return fmt.Errorf("PullID goroutine did not open its Pull: %v", err)
+		}
+		if p != "pull.opened" {
+			return fmt.Errorf("PullID goroutine parked at %q", p)
 		}
 		a.extra.Store("")
 		c.mu.Lock()
@@ -170,32 +208,48 @@ func (c *controller) step(t *thread) error {
 	}
 	t.resume <- struct{}{}
 	t.steps++
-	select {
-	case p := <-t.park:
+	p, ended, err := awaitPark(t.park, t.done)
+	if err != nil {
+		return fmt.Errorf("released thread neither parked nor finished: %v (last at %q)", err, t.at)
+	}
+	if !ended {
 		t.at = p
 		return nil
-	case <-t.done:
-		if t.wantAdopt {
-			// the call has returned; wait for its goroutine to reach pullid.open
+	}
+	if t.wantAdopt {
+		// the call has returned; wait for its goroutine to reach pullid.open
+		start := time.Now()
+		for {
 			select {
 			case a := <-t.adoptCh:
-				select {
-				case <-a.park:
-				case <-time.After(stepTimeout):
-					return fmt.Errorf("adopted goroutine did not park")
+				if _, _, err := awaitPark(a.park, nil); err != nil {
+					return fmt.Errorf("adopted goroutine did not park: %v", err)
 				}
 				t.adoptee = a
 				t.callerEnded = true
 				return nil
-			case <-time.After(stepTimeout):
+			case <-time.After(5 * time.Millisecond):
+			}
+			if stuck(start) {
+				select {
+				case a := <-t.adoptCh:
+					if _, _, err := awaitPark(a.park, nil); err != nil {
+						return fmt.Errorf("adopted goroutine did not park: %v", err)
+					}
+					t.adoptee = a
+					t.callerEnded = true
+					return nil
+				default:
+				}
+				return fmt.Errorf("PullID's goroutine did not reach pullid.open (every goroutine is waiting)")
+			}
+			if time.Since(start) > stepTimeout {
 				return fmt.Errorf("PullID's goroutine did not reach pullid.open within %v", stepTimeout)
 			}
 		}
-		t.ended = true
-		return nil
-	case <-time.After(stepTimeout):
-		return fmt.Errorf("released thread neither parked nor finished within %v (last at %q)", stepTimeout, t.at)
 	}
+	t.ended = true
+	return nil
 }
 
 // abandon lets every unfinished thread run to its end (used after a failure so nothing leaks)
@@ -207,7 +261,7 @@ func (c *controller) abandon(ts []*thread) {
 			c.mu.Unlock()
 			select {
 			case t.adoptee.resume <- struct{}{}:
-			case <-time.After(stepTimeout):
+			case <-time.After(abandonTimeout):
 			}
 			t.ended = true
 			continue
@@ -218,7 +272,7 @@ func (c *controller) abandon(ts []*thread) {
 			case <-t.done:
 				t.ended = true
 				continue
-			case <-time.After(stepTimeout):
+			case <-time.After(abandonTimeout):
 				t.ended = true
 				continue
 			}
@@ -226,7 +280,7 @@ func (c *controller) abandon(ts []*thread) {
 			case <-t.park:
 			case <-t.done:
 				t.ended = true
-			case <-time.After(stepTimeout):
+			case <-time.After(abandonTimeout):
 				t.ended = true
 			}
 		}
